@@ -357,14 +357,17 @@ func cmdRun(args []string) int {
 			continue
 		}
 		hr.Res = res
-		fmt.Printf("harness %-22s paths=%d completed=%d pruned=%d aborted=%d obligations=%d/%d queries=%d solver=%.1fs wall=%.1fs exhaustive=%v\n",
-			h.Name, res.Paths, res.Completed, res.Pruned, res.Aborted, res.Discharged, res.Obligations, res.Solver.Queries,
+		fmt.Printf("harness %-22s paths=%d completed=%d pruned=%d aborted=%d obligations=%d/%d queries=%d cachehits=%d/%d solver=%.1fs wall=%.1fs exhaustive=%v\n",
+			h.Name, res.Paths, res.Completed, res.Pruned, res.Aborted, res.Discharged, res.Obligations, res.Solver.Queries, res.CoreHits, res.ModelHits,
 			res.Solver.Time.Seconds(), res.Wall.Seconds(), res.Exhaustive)
 		for why, n := range res.AbortWhy {
 			fmt.Printf("  NOT-EXHAUSTIVE %s: %d path(s) aborted: %s\n", h.Name, n, why)
 		}
 		if res.BudgetHit != "" {
 			fmt.Printf("  NOT-EXHAUSTIVE %s: %s\n", h.Name, res.BudgetHit)
+		}
+		for _, n := range res.Notes {
+			fmt.Printf("  note %s: %s\n", h.Name, n)
 		}
 		if res.UnknownAs > 0 {
 			fmt.Printf("  NOT-EXHAUSTIVE %s: %d assertion(s) undecided by the solver\n", h.Name, res.UnknownAs)
@@ -422,7 +425,7 @@ func cmdRun(args []string) int {
 			}
 		}
 		// differential: completed sample paths must pass natively as well
-		if !*noReplay && len(res.Samples) > 0 && os.Getenv("VERIF_NO_DIFF") == "" {
+		if !*noReplay && !h.EngineOnly && len(res.Samples) > 0 && os.Getenv("VERIF_NO_DIFF") == "" {
 			n, bad := nativeDifferential(ps.ID, h, ts, realOv, res.Samples)
 			hr.DiffRuns, hr.DiffBad = n, bad
 			if bad > 0 {
